@@ -6,6 +6,7 @@ import Pyxv.Model.Choices
 import Pyxv.Model.Settings
 import Pyxv.Model.Lexer
 import Pyxv.Model.RefsText
+import Pyxv.Model.Channel
 import Pyxv.Model.Assemble
 import Pyxv.Model.Xml
 /-!
@@ -110,6 +111,9 @@ def fragmentKeys : List Str :=
 def logicKeys : List Str :=
   [l!"bind::relevant", l!"bind::required", l!"bind::constraint", l!"bind::calculate", l!"bind::readonly"]
 
+/-- cells whose `${name}` become `<output value=…/>` (`insert_output_values`) -/
+def textKeys : List Str := [l!"label", l!"hint"]
+
 def plainTypes : List Str := [l!"text", l!"integer", l!"decimal", l!"date", l!"note", l!"calculate"]
 
 def keysNodup : Cells → Bool
@@ -120,7 +124,8 @@ def keysNodup : Cells → Bool
 def rowOutside (r : Cells) : Option String :=
   if !(r.all fun kv => fragmentKeys.contains kv.1) then some "column outside the fragment"
   else if !keysNodup r then some "duplicate column"
-  else if r.any (fun kv => !logicKeys.contains kv.1 && isInfix (l!"${") kv.2) then some "reference outside a logic cell"
+  else if r.any (fun kv => !logicKeys.contains kv.1 && !textKeys.contains kv.1 && isInfix (l!"${") kv.2) then
+    some "reference outside a logic / label / hint cell"
   else
   match get r "type" with
   | none => none
@@ -438,16 +443,84 @@ end
 
 /-! ## 7. body -/
 
-/-- `xml_label`: `<label>text</label>`, or `<label/>` without a label cell -/
-def labelNode (r : Cells) : Node :=
-  Asm.pyNode (l!"label") [] (match get r "label" with | some s => [.text false s] | none => [])
+/-- the chain of the element at `path` (sibling names are unique, so a path names one element) -/
+def ctxOf (els : List Refs.Chain) (path : List Str) : Refs.Chain :=
+  (els.find? fun c => c.path == path).getD []
 
-def hintNode (r : Cells) : Node :=
-  Asm.pyNode (l!"hint") [] (match get r "hint" with | some s => [.text false s] | none => [])
+/-- name ↦ path text `_var_repl_function` emits for it from the context `ctx` (absolute or relative; the blanks
+    around it are added by `Chan.varRepl`); unknown / ambiguous names are absent -/
+def refsTable (els : List Refs.Chain) (ctx : Refs.Chain) : List (Str × Str) :=
+  els.filterMap fun c =>
+    match c.getLast? with
+    | some (n, _) =>
+      (match Refs.refFor els (some ctx) n {} with
+       | .ok _ e => some (n, e.render)
+       | _ => none)
+    | none => none
+
+mutual
+/-- every attribute list of the tree is a map (what `minidom` guarantees for a parsed fragment) -/
+def domOk : Node → Bool
+  | .text _ _ => true
+  | .elem _ a ks => attrKeysNodup a && domOkL ks
+def domOkL : List Node → Bool
+  | [] => true
+  | k :: ks => domOk k && domOkL ks
+end
+
+/-- text, or a childless `<output …/>` element -/
+def outputKid : Node → Bool
+  | .text _ _ => true
+  | .elem t _ [] => t == l!"output"
+  | .elem _ _ (_ :: _) => false
+
+/-- children of a label / hint: text and childless `<output …/>` elements -/
+def outputOnly : Node → Bool
+  | .elem _ _ ks => ks.all outputKid
+  | .text _ _ => false
+
+/-- label / hint text through the mixed channel (`node(tag, *insert_output_values(text, self), toParseString=…)`) -/
+def textOutcome (els : List Refs.Chain) (path : List Str) (tag s : Str) : Chan.Outcome Node :=
+  if isInfix (l!"instance(") s || isInfix (l!"${last-saved#") s then .unsupported "instance() / last-saved in a label" else
+  match Chan.mixedChannel (refsTable els (ctxOf els path)) tag s with
+  | .ok n => if domOk n && outputOnly n then .ok n else .unsupported "markup in a label"
+  | o => o
+
+def emptyNode (tag : Str) : Node := Asm.pyNode tag [] []
+
+def textNode (els : List Refs.Chain) (path : List Str) (tag : Str) (cell : Option Str) : Node :=
+  match cell with
+  | none => emptyNode tag
+  | some s =>
+    match textOutcome els path tag s with
+    | .ok n => n
+    | _ => emptyNode tag
+
+/-- what goes wrong with a rendered text cell, if anything -/
+def textErr (els : List Refs.Chain) (path : List Str) (tag : Str) (cell : Option Str) : Option Err :=
+  match cell with
+  | none => none
+  | some s =>
+    match textOutcome els path tag s with
+    | .ok _ => none
+    | .pyxformError => some (.rejected "reference in a label")
+    | .reparseError => some (.unsupported "label does not reparse (internal error)")
+    | .unsupported w => some (.unsupported w)
+
+/-- `xml_label`: `<label>text</label>` (with `<output>` for references), or `<label/>` without a label cell -/
+def labelNode (els : List Refs.Chain) (path : List Str) (r : Cells) : Node := textNode els path (l!"label") (get r "label")
+
+def hintNode (els : List Refs.Chain) (path : List Str) (r : Cells) : Node := textNode els path (l!"hint") (get r "hint")
 
 /-- `xml_label_and_hint` -/
-def labelAndHint (r : Cells) : List Node :=
-  (if has r "label" || has r "hint" then [labelNode r] else []) ++ (if has r "hint" then [hintNode r] else [])
+def labelAndHint (els : List Refs.Chain) (path : List Str) (r : Cells) : List Node :=
+  (if has r "label" || has r "hint" then [labelNode els path r] else []) ++
+  (if has r "hint" then [hintNode els path r] else [])
+
+def orErr (a b : Option Err) : Option Err :=
+  match a with
+  | some e => some e
+  | none => b
 
 /-- the `<itemset>` child of a select (`MultipleChoiceQuestion.build_xml`) -/
 def itemsetNodes (r : Cells) : List Node :=
@@ -464,21 +537,36 @@ def itemsetNodes (r : Cells) : List Node :=
 
 mutual
 /-- `xml_control` of an element, document order -/
-def bodyNodes (pre : List Str) : DItem → List Node
+def bodyNodes (els : List Refs.Chain) (pre : List Str) : DItem → List Node
   | .q d p =>
     if d.control then
-      [Asm.pyNode d.tag ((l!"ref", xpathStr (pre ++ [d.name])) :: p.attrs) (labelAndHint p.cells ++ itemsetNodes p.cells)]
+      [Asm.pyNode d.tag ((l!"ref", xpathStr (pre ++ [d.name])) :: p.attrs)
+        (labelAndHint els (pre ++ [d.name]) p.cells ++ itemsetNodes p.cells)]
     else []
   | .sec .rep n _ p ks =>
     [Asm.pyNode (l!"group") [(l!"ref", xpathStr (pre ++ [n]))]
-      [labelNode p.cells,
-       Asm.pyNode (l!"repeat") ((l!"nodeset", xpathStr (pre ++ [n])) :: p.attrs) (bodyNodesL (pre ++ [n]) ks)]]
+      [labelNode els (pre ++ [n]) p.cells,
+       Asm.pyNode (l!"repeat") ((l!"nodeset", xpathStr (pre ++ [n])) :: p.attrs) (bodyNodesL els (pre ++ [n]) ks)]]
   | .sec _ n _ p ks =>
     [Asm.pyNode (l!"group") (p.attrs ++ [(l!"ref", xpathStr (pre ++ [n]))])
-      ((if has p.cells "label" then [labelNode p.cells] else []) ++ bodyNodesL (pre ++ [n]) ks)]
-def bodyNodesL (pre : List Str) : List DItem → List Node
+      ((if has p.cells "label" then [labelNode els (pre ++ [n]) p.cells] else []) ++ bodyNodesL els (pre ++ [n]) ks)]
+def bodyNodesL (els : List Refs.Chain) (pre : List Str) : List DItem → List Node
   | [] => []
-  | k :: ks => bodyNodes pre k ++ bodyNodesL pre ks
+  | k :: ks => bodyNodes els pre k ++ bodyNodesL els pre ks
+end
+
+mutual
+/-- the first problem with a rendered label / hint, document order -/
+def textsErr (els : List Refs.Chain) (pre : List Str) : DItem → Option Err
+  | .q d p =>
+    if d.control then
+      orErr (textErr els (pre ++ [d.name]) (l!"label") (get p.cells "label"))
+            (textErr els (pre ++ [d.name]) (l!"hint") (get p.cells "hint"))
+    else none
+  | .sec _ n _ p ks => orErr (textErr els (pre ++ [n]) (l!"label") (get p.cells "label")) (textsErrL els (pre ++ [n]) ks)
+def textsErrL (els : List Refs.Chain) (pre : List Str) : List DItem → Option Err
+  | [] => none
+  | k :: ks => orErr (textsErr els pre k) (textsErrL els pre ks)
 end
 
 /-- element names of body controls (`control.tag` of the type table for the question types that render one) -/
@@ -590,10 +678,13 @@ def convertDoc (wb : Workbook) : Except Err Node :=
   if !bindsSupL rc dall then .error (.unsupported "bind value outside the fragment") else
   if !bindsOkL els rc dall then .error (.rejected "reference") else
   if !ctlOkL ditems then .error (.unsupported "control attribute with the local name ref / nodeset") else
+  match textsErrL els [root] ditems with
+  | some e => .error e
+  | none =>
   let rootKids := instNodes (defaultsOfL [root] ditems) [root] (ntKids o.inst)
   let insts := (Choices.staticInsts [] lists).map Choices.instNode
   let binds := bindNodesL els rc dall
-  let body := bodyNodesL [root] ditems
+  let body := bodyNodesL els [root] ditems
   let doc := Asm.assemble f none rootKids (insts ++ binds) body
   if Asm.validDoc [] doc then .ok doc else .error (.rejected "validate_xml_document")
 
